@@ -265,11 +265,11 @@ PROPS = {
                    "rule (period 10 s: 60 s then 10 s). The real Loop::start is run under tokio's paused clock with a "
                    "failing scripted connector and signals raised with raise(2) at scripted virtual times.",
         level_note="The theorems are about the Lean loop model (Model/Daemon.lean: one transition per select! arm); fidelity "
-                   "to task.rs is sampled by the correspondence run, exact to the millisecond in virtual time. Only FAILURE "
-                   "histories and signals are exercised against the real code: a successful Updater::run needs "
-                   "block_in_place (multi-thread runtime, no paused clock) plus a fake Junos server and a fake IRRd which do "
-                   "not exist yet (TODO(C19-success) hook in harness/src/daemon.rs); the success arm (interval.reset(), "
-                   "backoff = MIN_BACKOFF) is therefore covered by the theorems and by reading the code only. tokio's "
+                   "to task.rs is sampled by the correspondence run, exact to the millisecond in virtual time. Failure "
+                   "histories and signals run under the paused clock; histories with SUCCESSFUL runs (success arm: "
+                   "interval.reset(), backoff = MIN_BACKOFF) need block_in_place and therefore run in real time against the "
+                   "in-memory fake Junos and the fake IRRd, with times rounded to a 250 ms grid (three short ones in the quick "
+                   "tier, a failure->success one of 66 s in the thorough tier). tokio's "
                    "Interval/signal semantics (A1-A5 in the model file) are assumptions; simultaneous readiness of several "
                    "select! arms is excluded from the scripts (random in the real code), not modelled. D12: with period < 60 s "
                    "the unrepaired rule gives 60 s, period, period, ...; the spec op reports class `delay-shrinks` for those "
